@@ -16,6 +16,7 @@ import (
 // re-joined heartbeater) over deadline/bump/heartbeat-period offsets.
 func TestVerifC43Grid(t *testing.T) {
 	r := verifkit.Start(t, "C43", "grid")
+	gSeedSalt = r.Seed
 	gaps := []int64{1000, 1499, 1500, 1501, 1999, 2000, 2001, 2499, 2500, 2501, 3000}
 	phases := []int64{0, 1, 100, 250, 499}
 	k := r.N(2, 3)
